@@ -582,6 +582,9 @@ func cmdRun(args []string) int {
 		if err := os.WriteFile(filepath.Join(verifDir, "evidence", id+".json"), eb, 0o644); err != nil {
 			fatal("%v", err)
 		}
+		// a copy per tier, so that the record of the last thorough run survives later quick runs
+		os.MkdirAll(filepath.Join(verifDir, "evidence", tier), 0o755)
+		os.WriteFile(filepath.Join(verifDir, "evidence", tier, id+".json"), eb, 0o644)
 	}
 	fmt.Printf("%s tier=%s scenarios=%d executions=%d states=%d transitions=%d enumerated=%d distinct_nontrivial=%d exhaustive=%v violations=%d known=%d wall=%.1fs\n",
 		id, tier, tot.Scenarios, tot.Execs, tot.States, tot.Transitions, tot.Evaluations, tot.Distinct, exhaustive, nviol, len(knownPrinted), time.Since(t0).Seconds())
